@@ -133,6 +133,9 @@ pub fn run(args: &Args, sink: &mut Sink, rt: &tokio::runtime::Runtime) {
     let mut s_break = CStream::new("brk", REQ, "chk_break_stream", ITY, "outcome (list (option (list N)))");
     let mut s_strict = CStream::new("strict", REQ, "chk_strict_stream", ITY, "outcome (list (option (list N)))");
 
+    for s in [&mut s_chunk, &mut s_concat, &mut s_break, &mut s_strict] {
+        s.shard = 200;
+    }
     let mut cases: Vec<(usize, Vec<Item>)> = vec![];
     // corpus: the Rust unit tests and the doc example of break_stream
     let ut = |sizes: &[usize]| {
@@ -164,7 +167,7 @@ pub fn run(args: &Args, sink: &mut Sink, rt: &tokio::runtime::Runtime) {
             }
         }
     }
-    for _ in 0..args.vol(400, 6000) {
+    for _ in 0..args.vol(240, 6000) {
         let n = match rng.below(10) {
             0 => 0,
             1 => 1,
